@@ -142,6 +142,60 @@ def pso_variant_specs(seeds, iters):
     return out
 
 
+def pso_specs(quick, seeds, iters):
+    """C18 only: further parameter points of the swarm templates.
+
+    * inertia weights above 1 (`from_params` accepts every weight >= 0): the classic decreasing schedule 1.4 -> 0.4, an
+      increasing one that crosses 1, constant weights above 1 -- without acceleration terms (the new velocity is exactly
+      the stored weight times the old one) and with them (interval predicate `vrange`);
+    * `real_pso|const`: the generic `pso` template WITHOUT a weight schedule (`inertia_weight_update: None`), i.e. a
+      constant inertia weight -- the swarm's memories have to be kept all the same;
+    * objective values on tiny and huge scales (sphere on a domain of width 2e-9 / 2e9): improvements of the swarm's best
+      that are far below f64::EPSILON in absolute terms are improvements (memories are judged by rank)."""
+    pts = []
+    for pr in (REAL(2), REAL(3, 1, -4.0, 12.0)):
+        w = pr["hi"] - pr["lo"]
+        pts += [("real_pso", {"num_particles": 3, "start_weight": 1.4, "end_weight": 0.4, "c_one": 0.0, "c_two": 0.0, "v_max": 10.0 * w}, pr),
+                ("real_pso", {"num_particles": 2, "start_weight": 0.8, "end_weight": 1.2, "c_one": 0.0, "c_two": 0.0, "v_max": 10.0 * w}, pr),
+                ("real_pso", {"num_particles": 3, "start_weight": 1.3, "end_weight": 1.3, "c_one": 0.3, "c_two": 0.3, "v_max": 2.0 * w}, pr),
+                ("real_pso", {"num_particles": 4, "start_weight": 2.0, "end_weight": 0.0, "c_one": 0.5, "c_two": 0.5, "v_max": 0.5 * w}, pr),
+                ("real_pso|const", {"num_particles": 4, "start_weight": 0.7, "end_weight": 0.7, "c_one": 0.5, "c_two": 0.5, "v_max": 0.1 * w}, pr),
+                ("real_pso|const", {"num_particles": 1, "start_weight": 1.2, "end_weight": 1.2, "c_one": 0.0, "c_two": 0.0, "v_max": 10.0 * w}, pr),
+                ("real_pso|const", {"num_particles": 10, "start_weight": 0.4, "end_weight": 0.4, "c_one": 2.0, "c_two": 2.0, "v_max": 0.25 * w}, pr)]
+    for pr in (REAL(2, 0, -1e-9, 1e-9), REAL(2, 0, -1e9, 1e9)):
+        w = pr["hi"] - pr["lo"]
+        pts += [("real_pso", {"num_particles": 5, "start_weight": 0.9, "end_weight": 0.4, "c_one": 0.5, "c_two": 0.5, "v_max": 0.1 * w}, pr),
+                ("real_pso", {"num_particles": 3, "start_weight": 0.6, "end_weight": 0.2, "c_one": 2.0, "c_two": 2.0, "v_max": 0.5 * w}, pr),
+                ("real_pso|const", {"num_particles": 4, "start_weight": 0.7, "end_weight": 0.7, "c_one": 1.0, "c_two": 1.0, "v_max": 0.2 * w}, pr)]
+    out = []
+    for (t, params, prob) in pts:
+        for n in iters:
+            for s in seeds:
+                out.append({"run": len(out), "template": t, "params": params, "n": n, "seed": s, "eval": "seq", "prob": prob,
+                            "size_lo": params["num_particles"], "size_hi": params["num_particles"]})
+    return out
+
+
+def cro_under_specs(quick, seeds, iters):
+    """C20 only: `real_cro|under` -- the CRO template as a step of a heuristic that keeps a population of its own underneath
+    the reaction's population (the documented stack layouts of the four updates are relative to the top of the stack)."""
+    out = []
+    points = [(4, 0.5, 5.0, 0.1, 3), (8, 0.2, 0.0, 1000.0, 3), (1, 0.3, 5.0, 0.1, 3)]
+    if not quick:
+        points += [(4, 0.9, 50.0, 0.1, 0), (12, 0.2, 0.0, 1000.0, 1)]
+    for prob in (REAL(2), REAL(3, 1, -4.0, 12.0)):
+        for ps, mc, ke, beta, alpha in points:
+            for under in (3, 1):
+                params = {"initial_population_size": ps, "mole_coll": mc, "kinetic_energy_lr": 0.2, "alpha": alpha, "beta": beta,
+                          "initial_kinetic_energy": ke, "buffer": 1.0, "on_wall_deviation": 0.1, "decomposition_deviation": 0.3,
+                          "under_size": under}
+                for n in iters:
+                    for s in seeds:
+                        out.append({"run": len(out), "template": "real_cro|under", "params": params, "n": n, "seed": s, "eval": "seq",
+                                    "prob": prob, "size_lo": 1, "size_hi": 10 ** 6})
+    return out
+
+
 def specs(quick, seeds, iters):
     out = []
     for (t, params, prob, (lo, hi)) in grid(quick):
@@ -186,6 +240,13 @@ def sa_specs(quick, seeds, iters):
             pts.append(("real_sa", {"t_0": t0, "alpha": alpha, "deviation": 0.1 * w}, pr))
         pts.append(("real_sa|nested", {"t_0": unit * 1e-12, "alpha": 0.9, "deviation": 0.1 * w,
                                        "inner": {"t_0": unit * 1e12, "alpha": 0.5, "deviation": 0.02 * w, "n": 2}}, pr))
+    # a sphere on top of a large base cost, on a domain so narrow that neighbouring solutions differ in the last places of
+    # their objective values only (ulp = one unit in the last place of the base cost): frozen far below one such unit (a
+    # candidate worse by a single unit is never accepted), around 1/30 of a unit, and of the order of a unit
+    for pr, ulp in ((REAL(2, 6, -1e-6, 1e-6), 2.0 ** -43), (REAL(2, 7, -1e-4, 1e-4), 2.0 ** -31)):
+        w = pr["hi"] - pr["lo"]
+        for t0, alpha in ((ulp * 1e-4, 0.9), (ulp / 33.0, 0.99), (ulp, 0.95)):
+            pts.append(("real_sa", {"t_0": t0, "alpha": alpha, "deviation": 0.1 * w}, pr))
     out = []
     for (t, params, prob) in pts:
         for n in iters:
